@@ -3,17 +3,20 @@
 # check of the property it breaks, reverts, and prints one line per seed (regression of detection).
 # /repo's working tree must be clean. Takes 15-25 minutes.
 cd "$(dirname "$0")/.."
-[ -n "$(git -C /repo status --porcelain)" ] && { echo "/repo working tree is not clean"; exit 2; }
-trap 'git -C /repo checkout -q -- .' EXIT
+# in a background snapshot (vp run --with-repo) the library under test is the snapshot of /repo
+REPO="${VP_RUN_REPO:-/repo}"
+[ -n "$(git -C "$REPO" status --porcelain)" ] && { echo "$REPO working tree is not clean"; exit 2; }
+trap 'git -C "$REPO" checkout -q -- .' EXIT
 missed=0
 for d in seeded/*/; do
   id=$(basename "$d"); prop=$(python3 -c "import json;print(json.load(open('$d/meta.json'))['breaks_property'])")
-  if ! git -C /repo apply --check "$d/patch.diff" 2>/dev/null; then echo "$id $prop patch no longer applies (the code it changes has moved)"; continue; fi
-  git -C /repo apply "$d/patch.diff"
+  if ! git -C "$REPO" apply --check "$d/patch.diff" 2>/dev/null; then echo "$id $prop patch no longer applies (the code it changes has moved)"; continue; fi
+  git -C "$REPO" apply "$d/patch.diff"
   out=$(./run "$prop" quick 2>&1); code=$?
-  git -C /repo checkout -q -- .
+  git -C "$REPO" checkout -q -- .
   n=$(echo "$out" | grep -c '^VIOLATION')
-  echo "$id $prop exit=$code violation_lines=$n"
+  first=$(echo "$out" | grep -m1 -E "violation\[0\]" | cut -c1-160)
+  echo "$id $prop exit=$code violation_lines=$n $first"
   [ $code -ne 1 ] && missed=$((missed+1))
 done
 echo "not detected: $missed"
